@@ -55,6 +55,15 @@ def build_harness(race=False):
     shutil.copyfile(os.path.join(REPO, "go.sum"), os.path.join(hdir, "go.sum"))
     out = os.path.join(BUILD, "vh-race" if race else "vh")
     cmd = ["go", "build", "-tags", "verif"]
+    if REPO != "/repo":
+        # VERIF_REPO: the same harness against another working tree of the library
+        alt = os.path.join(BUILD, "go.alt.mod")
+        with open(os.path.join(hdir, "go.mod")) as f:
+            text = f.read().replace("=> /repo", "=> " + REPO)
+        with open(alt, "w") as f:
+            f.write(text)
+        shutil.copyfile(os.path.join(REPO, "go.sum"), os.path.join(BUILD, "go.alt.sum"))
+        cmd.append("-modfile=" + alt)
     if race:
         cmd.append("-race")
     cmd += ["-o", out, "./cmd/vh"]
